@@ -187,6 +187,7 @@ func (n *Node) openState() error {
 		return err
 	}
 	sc.LedgerCfg.KVEngineType = kvmem.Engine
+	sc.XLog = &HookLog{sc.XLog}
 	n.S, err = state.NewState(sc)
 	if err != nil {
 		return fmt.Errorf("new state: %v", err)
